@@ -169,6 +169,34 @@ impl Prop for C15 {
                     },
                 );
             }
+            // NOT a coinbase: several inputs, the first of them the null outpoint, first output above the subsidy
+            if rng.chance(1, 8) {
+                let at = rng.usize(1, txs.len());
+                let mut ins = vec![coinbase_input(hh + 9_000_000, rng)];
+                for _ in 0..rng.usize(1, 2) {
+                    ins.push(InDesc {
+                        prev_txid: Bytes(rng.bytes(32)),
+                        prev_index: 0,
+                        script_sig: Bytes(vec![]),
+                        sequence: 0,
+                        witness: vec![],
+                    });
+                }
+                txs.insert(
+                    at,
+                    TxDesc {
+                        version: 1,
+                        segwit: false,
+                        inputs: ins,
+                        outputs: vec![OutDesc {
+                            value: subsidy + rng.range(1, 90_000_000),
+                            script: Bytes(p2pkh(&rng.bytes(20))),
+                        }],
+                        locktime: 0,
+                        cs_width: 0,
+                    },
+                );
+            }
             // timestamps: mostly increasing, sometimes going back, sometimes huge gaps
             ts = match rng.below(9) {
                 8 => ts, // equal timestamps: a gap of exactly 0
